@@ -74,6 +74,9 @@ class StopTheWorld(GCStrategy):
         pressure_multiplier: float = 3.0,
     ) -> None:
         self._base_pause_s = base_pause_s
+        if interval_s <= 0:
+            # a zero collection interval re-arms the collection at the current instant forever
+            raise ValueError(f"interval_s must be > 0, got {interval_s}")
         self._interval_s = interval_s
         self._pressure_multiplier = pressure_multiplier
 
@@ -108,6 +111,9 @@ class ConcurrentGC(GCStrategy):
         interval_s: float = 2.0,
     ) -> None:
         self._pause_s = pause_s
+        if interval_s <= 0:
+            # a zero collection interval re-arms the collection at the current instant forever
+            raise ValueError(f"interval_s must be > 0, got {interval_s}")
         self._interval_s = interval_s
 
     def pause_duration_s(self, heap_pressure: float) -> float:
@@ -146,6 +152,9 @@ class GenerationalGC(GCStrategy):
     ) -> None:
         self._minor_pause_s = minor_pause_s
         self._major_pause_s = major_pause_s
+        if minor_interval_s <= 0:
+            # a zero collection interval re-arms the collection at the current instant forever
+            raise ValueError(f"minor_interval_s must be > 0, got {minor_interval_s}")
         self._minor_interval_s = minor_interval_s
         self._major_threshold = major_threshold
         self._collections_since_major: int = 0
